@@ -22,8 +22,10 @@ Check(e) ==
   ELSE IF "tracker" \in DOMAIN e.post.reporter THEN
      LET tr == e.post.reporter.tracker IN
      IF e.ev = "EndBlock" /\ e.ok
-     THEN (IF RefreshAt(base, expiry, e.bonded, e.t, tr.amt, tr.exp) THEN {} ELSE {"BaselineRefreshedOnlyAfterTwelveHours"})
-     ELSE (IF tr.amt = base /\ tr.exp = expiry THEN {} ELSE {"BaselineChangesOnlyInEndBlock"})
+     \* block times and the stored expiry have nanosecond resolution: compared in ns (a millisecond comparison raised a
+     \* false alarm when expiry and block time fell into the same millisecond)
+     THEN (IF RefreshAt(base, expiry, e.bonded, e.tn, tr.amt, tr.expn, TwelveHoursMs ** Pow10(6)) THEN {} ELSE {"BaselineRefreshedOnlyAfterTwelveHours"})
+     ELSE (IF tr.amt = base /\ tr.expn = expiry THEN {} ELSE {"BaselineChangesOnlyInEndBlock"})
   ELSE {}
 
 Step ==
@@ -33,7 +35,7 @@ Step ==
          hasTr == e.ev # "AnteCase" /\ "tracker" \in DOMAIN e.post.reporter
      IN /\ hist' = e.hist
         /\ base' = IF hasTr THEN e.post.reporter.tracker.amt ELSE base
-        /\ expiry' = IF hasTr THEN e.post.reporter.tracker.exp ELSE expiry
+        /\ expiry' = IF hasTr THEN e.post.reporter.tracker.expn ELSE expiry
         /\ viol' = IF reset /\ e.ev # "AnteCase" THEN viol ELSE AddViol(viol, l, Check(e))
         /\ l' = l + 1
 Spec == Init /\ [][Step]_tvars
